@@ -378,6 +378,57 @@ func (c18) Eval(c *Case) (*Violation, bool) {
 			}
 		}
 	}
+	// persistent conditions: from some operation on every operation of that kind fails (a file
+	// system that refuses renames, a disk that stays full, a directory that became read-only)
+	for _, op := range base.Trace {
+		for _, k := range faultKindsFor(op.Op) {
+			if op.Op == "remove" {
+				continue
+			}
+			flt := simrt.Fault{Kind: k, Sticky: true}
+			o := Run(mk(map[int]simrt.Fault{op.N: flt}))
+			if o.Outcome != simrt.OutReturned && o.Outcome != simrt.OutExit {
+				c.Faults = map[int]simrt.Fault{op.N: flt}
+				return &Violation{Signature: "abnormal-end:" + o.Outcome + ":persistent", Msg: fmt.Sprintf("persistent %s from %s on: %s ended with %s %s", k, op.Op, cmd, o.Outcome, o.PanicValue)}, false
+			}
+			if v := check(o.FS, fmt.Sprintf("persistent %s from op %d %s %s on", k, op.N, op.Op, op.Path), false); v != nil {
+				v.Signature += ":persistent"
+				c.Faults = map[int]simrt.Fault{op.N: flt}
+				return v, false
+			}
+			Extra["persistent_faults"]++
+		}
+	}
+	// a fault and then a crash while the command handles it: every operation of the
+	// error-handling path is a crash point too
+	for _, op := range base.Trace {
+		if len(c.Links) != 0 {
+			break
+		}
+		for _, k := range faultKindsFor(op.Op) {
+			flt := simrt.Fault{Kind: k}
+			o := Run(mk(map[int]simrt.Fault{op.N: flt}))
+			for p := op.N + 1; p <= len(o.Trace) && p <= op.N+8; p++ {
+				tr := o.Trace
+				if p < len(o.Trace) {
+					oc := Run(mk(map[int]simrt.Fault{op.N: flt, p: {Kind: "crash"}}))
+					if oc.Outcome != simrt.OutCrash {
+						continue
+					}
+					tr = oc.Trace
+				}
+				for _, img := range simrt.CrashImages(old, tr, p) {
+					if v := check(img, fmt.Sprintf("%s on op %d %s, then a crash before op %d (%s)", k, op.N, op.Op, p, opName(tr, p)), true); v != nil {
+						v.Signature += ":fault-then-crash"
+						c.Faults = map[int]simrt.Fault{op.N: flt, p: {Kind: "crash"}}
+						v.Detail = describeImage(img)
+						return v, false
+					}
+				}
+				Extra["fault_then_crash_points"]++
+			}
+		}
+	}
 	if c.Tier == "thorough" {
 		// drawn pairs of faults (for example a short write and a failing cleanup)
 		rr := simrt.NewRand(uint64(c.N)*31 + 7)
